@@ -291,7 +291,7 @@ theorem skip_shift (off : Nat → Nat) (s : State) (n : Nat) : skip (shift off s
 theorem markUnavailable_shift (c : Cfg) (sh : List (List Item)) (off : Nat → Nat) (s : State) (w : Nat) (b : Bool) :
     markUnavailable (withShards c sh) (shift off s) w b = shift off (markUnavailable c s w b) := by
   unfold markUnavailable
-  simp only [shift, up_shift]
+  simp only [shift]
   have hp := pushMsg_shift off s.workers w .stop
   rw [hp]
   rfl
